@@ -107,13 +107,18 @@ def context():
 TEXT_KEYS = ('description', 'reference', 'lastupdated', 'organization', 'contactinfo')
 
 
-def judge(decls, gen_texts, sigbase, modname='TEST-MIB'):
+def judge(decls, gen_texts, sigbase, modname='TEST-MIB', others=(), others_first=True):
+    """others: [(module name, decls)] unrelated modules compiled by the same call (same compiler, same generators)."""
     mod = refir.finish_module({'name': modname, 'decls': decls})
     uni = refir.Universe([mod])
     text = mibspec.pretty([mod])
     parser = env.shared_parser('smiV2')
     parser.reset()
-    res, written = env.compile_set({modname: text}, [modname], codegen='json', dialect=parser, genTexts=gen_texts)
+    texts = {modname: text}
+    for oname, odecls in others:
+        texts[oname] = mibspec.pretty([refir.finish_module({'name': oname, 'decls': odecls})])
+    req = [o for o, _ in others] + [modname] if others_first else [modname] + [o for o, _ in others]
+    res, written = env.compile_set(texts, req, codegen='json', dialect=parser, genTexts=gen_texts)
     vs = []
     if res.get(modname) != 'compiled':
         return 'status=%s' % res.get(modname), [('%s|not-compiled|%s' % (sigbase, res.get(modname)),
@@ -314,4 +319,28 @@ class TableOrders(object):
         return judge(context() + items, False, 'C03|table-order|cols=%d' % case['ncols'])
 
 
-FAMILIES = [Sequences(), Names(), Parts(), ReservedKeys(), TableOrders()]
+class SharedNames(object):
+    name = 'names-shared-with-another-module'
+    describe = ('OTHER-MIB declares a table (table, row, SEQUENCE type, two columns); TEST-MIB, compiled by the same call before or '
+                'after it, declares one symbol of each kind NAMED LIKE one of those (descriptors are unique per module only): the '
+                'document of TEST-MIB is what its own text says')
+
+    def blocks(self, tier):
+        return [{'k': k} for k in KINDS if k != 'tbl']
+
+    def cases(self, block, tier):
+        names = ['Sym0Entry'] if block['k'] in ('type', 'tc') else ['sym0', 'sym0Entry', 'sym0Idx', 'sym0Val']
+        for n in names:
+            for first in (True, False):
+                yield {'k': block['k'], 'name': n, 'others_first': first}
+
+    def run_case(self, case):
+        other = [{'k': 'value', 'name': 'ctxRoot', 'oid': ['enterprises', 777]}] + make('tbl', 0)
+        d = make(case['k'], 1)
+        d[0]['name'] = case['name']
+        items = context() + d + make('ot', 2)
+        return judge(items, False, 'C03|shared-name|%s-named-like-%s' % (case['k'], case['name']),
+                     others=[('OTHER-MIB', other)], others_first=case['others_first'])
+
+
+FAMILIES = [Sequences(), Names(), Parts(), ReservedKeys(), TableOrders(), SharedNames()]
